@@ -200,10 +200,12 @@ func mathRandom(L *LState) int {
 	case 1:
 		n := L.CheckInt(1)
 		L.Push(LNumber(intn(n) + 1))
-	default:
+	case 2:
 		min := L.CheckInt(1)
 		max := L.CheckInt(2) + 1
 		L.Push(LNumber(intn(max-min) + min))
+	default:
+		L.RaiseError("wrong number of arguments")
 	}
 	return 1
 }
